@@ -11,7 +11,8 @@
    The answer is three valued: "T" matches, "F" does not, "U" PMS / the property leaves it
    open (only through Glob = "U", or a USE dependency without default on a flag that is not in
    IUSE).  A definite "F" of one part decides; otherwise one "U" part makes the whole "U".
-   A blocker ("!", "!!") matches what its non-blocking form matches, so blocking is not a field. *)
+   A blocker ("!", "!!") matches what its non-blocking form matches and a slot operator (:= :* :0=)
+   does not take part in matching, so neither is a field of the atom here.                        *)
 EXTENDS AtomVer
 
 B3(b) == IF b THEN "T" ELSE "F"
